@@ -290,6 +290,53 @@ def make_cases(rng, subj):
     return cases
 
 
+
+# ---------------------------------------------------------------- literal patterns agree with ==, for every pair
+# "A literal pattern matches when v == literal": subjects that no JSON document or literal can spell (NaN, infinities,
+# -0, results of arithmetic), numeric strings of every shape, booleans and null, against every kind of literal.  Each
+# line of the program prints `v == L` next to what a match on the pattern L says; the two must be the same word.
+
+SPECIAL_SUBJECTS = [
+    '+"NaN"', '"Inf" - "Inf"', '0 * +"Inf"', '+"Inf"', '0 - +"Inf"', '"1e308" * 10', '"-1e308" * 10', '+"Infinity"',
+    '0 * (0 - 1)', '0 - 0', '(0 - 1) * 0.0', '+"-0"', '0.1 + 0.2', '1 / 3 * 3', '10 / 4', '0 - 1', '2 - 1', '1000000 * 1000000 * 1000000 * 1000',
+    '+"1"', '+"abc"', '+""', '+true', '+null',
+    '"1"', '"1.0"', '" 1"', '"1 "', '"1e0"', '"0x1"', '"+1"', '"-0"', '"0"', '"00"', '".5"', '"5."', '"0.5"', '"NaN"', '"nan"', '"Inf"', '"inf"',
+    '"+Inf"', '"-Inf"', '"Infinity"', '""', '" "', '"true"', '"false"', '"null"', '"abc"', '"1_000"', '"1e400"', '"2"', '"10"', '"0.30000000000000004"',
+    'true', 'false', 'null', '0', '1', '0.5', '0.3', '2', '100',
+]
+SPECIAL_LITERALS = ['0', '1', '2', '10', '100', '0.5', '0.3', '1.0', '0.0', '1000000000000000000000', '""', '"0"', '"1"', '"1.0"', '" 1"', '"NaN"',
+                    '"Inf"', '"-Inf"', '"abc"', '"true"', '"false"', '"null"', '"0.5"', '"-0"', 'true', 'false', 'null']
+
+
+def literal_agreement_programs(rng, per_prog=9):
+    """(program, [(subject, literal, form)]) : every subject x every literal, in three pattern positions"""
+    pairs = [(s_, l_) for s_ in SPECIAL_SUBJECTS for l_ in SPECIAL_LITERALS]
+    rng.shuffle(pairs)
+    out = []
+    for k in range(0, len(pairs), per_prog):
+        chunk = pairs[k:k + per_prog]
+        lines, what = [], []
+        for s_, l_ in chunk:
+            form = rng.choice(["alone", "alone", "in-array", "second-alternative", "nested"])
+            other = rng.choice([x for x in SPECIAL_LITERALS if x != l_])
+            if form == "alone":
+                m = "match (v) { %s => true,\n _ => false }" % l_
+                e = "v == %s" % l_
+            elif form == "in-array":
+                m = "match ([3, v]) { [3, %s] => true,\n _ => false }" % l_
+                e = "v == %s" % l_
+            elif form == "nested":
+                m = "match ([[v], 1]) { [[%s], 1] => true,\n _ => false }" % l_
+                e = "v == %s" % l_
+            else:
+                m = "match (v) { %s, %s => true,\n _ => false }" % (other, l_)
+                e = "(v == %s || v == %s)" % (other, l_)
+            lines.append(" v = %s\n print \"e\", %s, %s" % (s_, e, m))
+            what.append([s_, l_, form])
+        out.append(("BEGIN {\n" + "\n".join(lines) + "\n}", what))
+    return out
+
+
 FIXED = [
     ([1.0, 2.0], [[("arr", [("id", "x"), ("lit", 3.0)]), ("arr", [("id", "y"), ("lit", 2.0)])]]),
     ([[5.0, 6.0], 2.0], [[("arr", [("arr", [("id", "x"), ("lit", 9.0)]), ("id", "y")]), ("id", "z")]]),
@@ -319,7 +366,9 @@ class C19(Check):
             "block bodies that print a unique label and the bound names, a case whose pattern is not a supported pattern kind (an "
             "error iff reached), outer variables of the same names set before and printed after; thorough adds every order of the "
             "alternatives. oracle: first case with a matching alternative, literal = '==', bindings visible in the body only, block "
-            "body and no match yield null. non-trivial = >= 2 cases and >= 1 case with >= 2 alternatives")
+            "body and no match yield null; plus every pair of 60 special subjects (NaN, +-Inf, -0, rounding results, numeric strings "
+            "of every shape, booleans, null) x 27 literals, alone / inside array patterns / as a later alternative: the pattern "
+            "matches exactly when == says so. non-trivial = >= 2 cases and >= 1 case with >= 2 alternatives")
 
     def generate(self, rng, tier):
         n = 1200 if tier == "quick" else 60000
@@ -333,6 +382,12 @@ class C19(Check):
             for via in ("lit", "var", "call") + (("doc",) if not V.has_unset(subj) else ()):
                 cases.append(build(rng, "f%d" % k, subj, cl, via))
                 k += 1
+        progs = literal_agreement_programs(rng)
+        if tier == "thorough":
+            progs += literal_agreement_programs(rng, 5) + literal_agreement_programs(rng, 7)
+        for j, (prog, what) in enumerate(progs):
+            cid = "e%d" % j
+            cases.append(Case(cid, simple_run(cid, prog, []), {"prog": prog, "agree": what}, True))
         for k in range(n):
             subj = subject(rng, rng.choice([0, 1, 2, 2, 3, 3]))
             cl = make_cases(rng, subj)
@@ -355,6 +410,15 @@ class C19(Check):
 
     def oracle(self, case, impl):
         m = case.meta
+        if "agree" in m and impl.outcome not in ("timeout", "noresult", "badcase"):
+            lines = impl.stdout.decode("utf-8", "replace").splitlines()
+            if impl.outcome != "ok" or len(lines) != len(m["agree"]):
+                return "literal patterns vs ==: outcome %s, %d of %d lines printed" % (impl.outcome, len(lines), len(m["agree"]))
+            for ln, (s_, l_, form) in zip(lines, m["agree"]):
+                f = ln.split(" ")
+                if len(f) != 3 or f[0] != "e" or f[1] not in ("true", "false") or f[2] != f[1]:
+                    return "subject %s, literal pattern %s (%s): == says %s, match says %s" % (s_, l_, form, f[1] if len(f) > 1 else "?", f[2] if len(f) > 2 else "?")
+            return None
         if "expect_stdout" not in m or impl.outcome in ("timeout", "noresult", "badcase"):
             return None
         got = impl.stdout.decode("utf-8", "replace")
